@@ -214,6 +214,8 @@ def lean_str(s):
 def gen_inventory(repo, outdir, work):
     msp = os.path.join(repo, "libmspack/mspack")
     writable = []   # (tu, symbol)
+    imports = set() # symbols the library's objects leave undefined: what it takes from libc (or from its own other TUs)
+    defined = set()
     for tu in LIB_TUS:
         obj = os.path.join(work, tu + ".o")
         r = subprocess.run(["gcc", "-w", "-O1", "-c", "-o", obj, os.path.join(msp, tu), "-I" + msp] + CFLAGS,
@@ -225,6 +227,9 @@ def gen_inventory(repo, outdir, work):
             parts = line.split()
             if len(parts) == 3 and parts[1] in "bBdDsScCgG":
                 writable.append((tu, parts[2]))
+            if len(parts) == 3 and parts[1] in "TDBRCGSVW": defined.add(parts[2])
+            if len(parts) == 2 and parts[0] in "Uw": imports.add(parts[1])
+    imports = sorted(x for x in imports - defined if x != "_GLOBAL_OFFSET_TABLE_")
     writable.sort()
     # every source line mentioning a writable static (normalised)
     uses = []
@@ -281,6 +286,10 @@ def gen_inventory(repo, outdir, work):
     out.append("/-- every call of mspack_system::open in the library: (TU, filename argument, mode argument) -/")
     out.append("def openCallSites : List (String × String × String) := [")
     out.append(",\n".join(f"  ({lean_str(a)}, {lean_str(b)}, {lean_str(c)})" for a, b, c in opens) + "]")
+    out.append("")
+    out.append("/-- every symbol the library's objects import from outside the library (libc), gcc -O1 -/")
+    out.append("def externalImports : List String := [")
+    out.append(",\n".join(f"  {lean_str(a)}" for a in imports) + "]")
     out += ["", "end MsPack.Generated"]
     return write_if_changed(os.path.join(outdir, "Inventory.lean"), "\n".join(out) + "\n")
 
